@@ -234,7 +234,11 @@ func c16Get(tier, which string) *c16Cfg {
 	case which == "ab" && tier == "quick":
 		v = c16Build("ab", []rune("ab"), []rune("abc"), 3, 3, 3)
 	case which == "ab":
-		v = c16Build("ab", []rune("ab"), []rune("abc"), 14, 3, 4)
+		v = c16Build("ab", []rune("ab"), []rune("abc"), 5, 3, 3)
+	case which == "ab-all": // every subset, single reads and monotonicity only
+		v = c16Build("ab-all", []rune("ab"), []rune("abc"), 14, 3, 4)
+	case which == "ab4": // longer inputs, small sets, all orders
+		v = c16Build("ab4", []rune("ab"), []rune("abc"), 3, 3, 4)
 	case which == "ab3": // triple reads, small sets, all orders
 		v = c16Build("ab3", []rune("ab"), []rune("abc"), 3, 2, 3)
 	case which == "nonlatin3":
@@ -301,7 +305,9 @@ func init() {
 			}
 			add("ab", 2, "sets-ab-read-pairs")
 			if tier == "thorough" {
+				add("ab-all", 1, "all-subsets-single-reads")
 				add("ab3", 3, "sets-ab-read-triples")
+				add("ab4", 2, "sets-ab-long-inputs")
 			}
 			add("aя", 2, "sets-nonlatin-read-pairs")
 			add("deep", 1, "deep-symbols-monotonicity")
